@@ -171,6 +171,15 @@ fn extra_shapes(parts: &mut Vec<Part<Case>>, base: GenCfg, tier: Tier, w_modify:
     c.max_len = tier.pick(90, 300);
     c.w_cancel = 6;
     parts.push(random_part("random-deep-queues", c, tier.pick(60_000, 1_200_000)));
+    // very deep queues: long narrow histories with sweeping market orders (levels of 30+ orders consumed at once)
+    let mut c = base.clone();
+    c.narrow = true;
+    c.sweep_pct = 40;
+    c.w_modify = w_modify.min(8);
+    c.max_len = tier.pick(450, 900);
+    c.w_cancel = 3;
+    c.market_pct = 8;
+    parts.push(random_part("random-very-deep-queues", c, tier.pick(3_000, 60_000)));
     let mut c = base;
     c.w_modify = w_modify;
     c.max_len = tier.pick(1_200, 3_000);
